@@ -6,12 +6,15 @@ package load
 import (
 	"fmt"
 	"go/ast"
+	"go/parser"
 	"go/token"
 	"go/types"
 	"os"
 	"path/filepath"
 	"sort"
 	"strings"
+
+	"verif/checker/internal/normal"
 
 	"golang.org/x/tools/go/packages"
 	"golang.org/x/tools/go/ssa"
@@ -32,6 +35,9 @@ type Options struct {
 	Dir    string   // repository root (default /repo or $VERIF_REPO)
 	Tags   []string // build tags
 	GOARCH string   // "" = host
+
+	NoNormalise bool   // skip internal/normal (set by Load itself when normalisation fails)
+	normalErr   string // why normalisation was abandoned
 }
 
 // Program is the loaded, type-checked, SSA-built package plus roles.
@@ -64,6 +70,11 @@ type Program struct {
 	EvalExt     map[string]bool // external callees reachable directly from EVAL package functions
 
 	Sizes types.Sizes
+
+	// Normal reports what the source normaliser (internal/normal) expanded. Files, Info, Types
+	// and the SSA form are those of the normalised source; GenFile is the generated parser as
+	// written on disk (the grammar engine compares it with the grammar source).
+	Normal *normal.Report
 }
 
 // RelPos renders a position relative to the repo root.
@@ -198,6 +209,75 @@ func Load(opts Options) (*Program, error) {
 		return nil, infra("root package has no syntax/types")
 	}
 
+	// the generated parser as written, before normalisation
+	var origGen *ast.File
+	ngen := 0
+	for _, f := range root.Syntax {
+		if isGeneratedFile(f) {
+			ngen++
+			og, err := parser.ParseFile(root.Fset, root.Fset.Position(f.Pos()).Filename, nil, parser.ParseComments)
+			if err != nil {
+				return nil, infra("re-parsing the generated file: %v", err)
+			}
+			origGen = og
+		}
+	}
+	if ngen != 1 {
+		return nil, infra("expected exactly one generated file, found %d", ngen)
+	}
+	var nrep *normal.Report
+	if os.Getenv("VERIF_NO_NORMALISE") == "" && !opts.NoNormalise {
+		imp := importerOf(root)
+		goVersion := ""
+		if root.Module != nil && root.Module.GoVersion != "" {
+			goVersion = "go" + root.Module.GoVersion
+		}
+		check := func(files []*ast.File) (*types.Package, *types.Info, error) {
+			info := &types.Info{
+				Types:        map[ast.Expr]types.TypeAndValue{},
+				Defs:         map[*ast.Ident]types.Object{},
+				Uses:         map[*ast.Ident]types.Object{},
+				Implicits:    map[ast.Node]types.Object{},
+				Instances:    map[*ast.Ident]types.Instance{},
+				Scopes:       map[ast.Node]*types.Scope{},
+				Selections:   map[*ast.SelectorExpr]*types.Selection{},
+				FileVersions: map[*ast.File]string{},
+			}
+			var first error
+			conf := &types.Config{Importer: imp, Sizes: root.TypesSizes, GoVersion: goVersion, Error: func(e error) {
+				if first == nil {
+					first = e
+				}
+			}}
+			pkg, _ := conf.Check(root.PkgPath, root.Fset, files, info)
+			if first != nil {
+				return nil, nil, first
+			}
+			return pkg, info, nil
+		}
+		var np *types.Package
+		var ni *types.Info
+		var rep *normal.Report
+		var err error
+		func() {
+			defer func() {
+				if x := recover(); x != nil {
+					err = fmt.Errorf("panic: %v", x)
+				}
+			}()
+			np, ni, rep, err = normal.Normalize(root.Fset, root.Syntax, root.Types, root.TypesInfo, normal.Known(), check)
+		}()
+		if err != nil {
+			// the syntax trees were rewritten in place: load again and analyse the source as written
+			// (helpers then stay opaque to the rules, as before the normaliser existed)
+			opts.NoNormalise = true
+			opts.normalErr = err.Error()
+			return Load(opts)
+		}
+		root.Types, root.TypesInfo = np, ni
+		nrep = rep
+	}
+
 	prog, ssapkgs := ssautil.AllPackages(pkgs, ssa.InstantiateGenerics)
 	prog.Build()
 	var spkg *ssa.Package
@@ -222,13 +302,17 @@ func Load(opts Options) (*Program, error) {
 		Files:    root.Syntax,
 		GenFiles: map[*ast.File]bool{},
 		Sizes:    root.TypesSizes,
+		Normal:   nrep,
+	}
+	if opts.normalErr != "" {
+		P.Normal = &normal.Report{Expanded: map[string]int{}, Failed: opts.normalErr}
 	}
 	for _, f := range root.Syntax {
 		if isGeneratedFile(f) {
 			P.GenFiles[f] = true
-			P.GenFile = f
 		}
 	}
+	P.GenFile = origGen
 	P.NFiles = len(root.Syntax)
 	if P.NFiles < 50 {
 		return nil, infra("only %d non-test source files loaded (floor 50)", P.NFiles)
@@ -236,6 +320,7 @@ func Load(opts Options) (*Program, error) {
 	if len(P.GenFiles) != 1 {
 		return nil, infra("expected exactly one generated file, found %d", len(P.GenFiles))
 	}
+	P.GenFiles[origGen] = true
 
 	// collect functions
 	seen := map[*ssa.Function]bool{}
@@ -308,4 +393,24 @@ func isGeneratedFile(f *ast.File) bool {
 		}
 	}
 	return false
+}
+
+type mapImporter map[string]*types.Package
+
+func (m mapImporter) Import(path string) (*types.Package, error) {
+	if p := m[path]; p != nil {
+		return p, nil
+	}
+	if path == "unsafe" {
+		return types.Unsafe, nil
+	}
+	return nil, fmt.Errorf("package %s not loaded", path)
+}
+
+func importerOf(root *packages.Package) types.Importer {
+	m := mapImporter{}
+	for path, p := range root.Imports {
+		m[path] = p.Types
+	}
+	return m
 }
